@@ -10,4 +10,24 @@ META = {
    technique="TLA+ spec (Wire.tla) + TLC exhaustive MC + TLC-generated behaviours replayed into FrameCodec + TLC trace validation",
    design_ref="DESIGN.md 3/C03"),
 }
+META["C04"] = dict(
+   text="Padding.tla states the scheme language (normalisation of raw lines) and the per-packet shaping rule twice: as the generative "
+        "algorithm and as a closed-form acceptor over observed write lengths; TLC proves both equivalent, terminating and byte-"
+        "conserving for every raw line of <=2/3 items over a size alphabet with reversed/non-positive/junk items and every payload "
+        "0..7 (exhaustive). A real Session (client and server role) is then driven over a recording in-memory transport with "
+        "TLC-generated (line, payload, forced draws) behaviours and with random accepted schemes in random spellings (sizes up to "
+        "200000); every packet (bytes up to a flush) is parsed by an independent parser and Trace_Padding.tla checks that it is a "
+        "sequence of complete frames with honest headers (Wire.tla arithmetic), that deleting waste frames leaves exactly the "
+        "submitted frames in order with equal payloads, and that no call fails or panics.",
+   technique="TLA+ spec (Padding.tla, Wire.tla) + TLC exhaustive MC + TLC-generated behaviours replayed into Session + TLC trace validation",
+   design_ref="DESIGN.md 3/C04")
+META["C05"] = dict(
+   text="Same specification and runs as C04; here the verdict is the shaping acceptor: the validator owns the protocol's packet counter "
+        "(preamble = packet 0, session packets 1,2,...), selects the normalised line of packet k < stop and accepts the recorded "
+        "transport write lengths only if WriteStep (model-checked equivalent to the generative rule, ranges in closed form) permits "
+        "them, ending exactly at a check mark / end of line; packets >= stop, packets without a line and every server packet must "
+        "contain no waste byte; the preamble must declare the padding of line 0. Draws are forced through a cfg-guarded hook to "
+        "visit range ends and the payload/header boundary.",
+   technique="TLA+ spec (Padding.tla acceptor) + TLC exhaustive MC of generator==acceptor + forced-draw replay + TLC trace validation",
+   design_ref="DESIGN.md 3/C05")
 NOT_YET = "check not built yet in this round (planned: DESIGN.md section 3); not claimed"
